@@ -194,3 +194,56 @@ Section MapGridR.
     - rewrite Hl'. unfold bin_to_value, nhalf; cbn. lra.
   Qed.
 End MapGridR.
+
+(* bin_distance_from_boundaries: never above the running minimum, and non-negative exactly when every value of a
+   non-periodic dimension lies between its boundaries *)
+Section BinDistance.
+  Local Open Scope R_scope.
+
+  Lemma signed_bins_lower (x l w : R) : 0 < w -> signed_bins Rops (nltb Rops x l) x l w = (x - l) / w.
+  Proof.
+    intros Hw. unfold signed_bins. rewrite nabs_R. cbn. unfold Rltb. destruct (Rlt_dec x l).
+    - rewrite Rabs_left by lra. field. lra.
+    - rewrite Rabs_right by lra. reflexivity.
+  Qed.
+  Lemma signed_bins_upper (x u w : R) : 0 < w -> signed_bins Rops (nltb Rops u x) x u w = (u - x) / w.
+  Proof.
+    intros Hw. unfold signed_bins. rewrite nabs_R. cbn. unfold Rltb. destruct (Rlt_dec u x).
+    - rewrite Rabs_right by lra. field. lra.
+    - rewrite Rabs_left1 by lra. field. lra.
+  Qed.
+
+  Fixpoint all_inside (per : list bool) (lower upper x : list R) : Prop :=
+    match per, lower, upper, x with
+    | p :: ps, l :: ls, u :: us, xi :: xs => (p = false -> l <= xi <= u) /\ all_inside ps ls us xs
+    | _, _, _, _ => True
+    end.
+
+  Lemma bin_distance_sign : forall per lower upper w x acc,
+    Forall (fun wi => 0 < wi) w -> length lower = length per -> length upper = length per -> length w = length per ->
+    length x = length per ->
+    (0 <= bin_distance Rops per lower upper w x acc <-> 0 <= acc /\ all_inside per lower upper x).
+  Proof.
+    induction per as [|p ps IH]; intros [|l ls] [|u us] [|wi ws] [|xi xs] acc Hw H1 H2 H3 H4; try discriminate.
+    - cbn. tauto.
+    - inversion Hw as [|? ? Hwi Hws]; subst. cbn [bin_distance all_inside]. cbn [length] in *.
+      destruct p.
+      + rewrite IH by (auto; lia). split; intros [A B]; (split; [exact A|]); [split; [discriminate | exact B] | apply B].
+      + rewrite signed_bins_lower, signed_bins_upper by auto.
+        rewrite IH by (auto; lia). cbn. unfold Rltb.
+        assert (E1 : 0 <= (xi - l) / wi <-> l <= xi).
+        { split; intros H.
+          - apply Rmult_le_compat_r with (r := wi) in H; [|lra]. unfold Rdiv in H. rewrite Rmult_assoc, Rinv_l in H by lra. lra.
+          - apply Rmult_le_pos; [lra | left; apply Rinv_0_lt_compat; lra]. }
+        assert (E2 : 0 <= (u - xi) / wi <-> xi <= u).
+        { split; intros H.
+          - apply Rmult_le_compat_r with (r := wi) in H; [|lra]. unfold Rdiv in H. rewrite Rmult_assoc, Rinv_l in H by lra. lra.
+          - apply Rmult_le_pos; [lra | left; apply Rinv_0_lt_compat; lra]. }
+        destruct (Rlt_dec ((xi - l) / wi) acc) as [Ha|Ha];
+          [destruct (Rlt_dec ((u - xi) / wi) ((xi - l) / wi)) as [Hb|Hb] | destruct (Rlt_dec ((u - xi) / wi) acc) as [Hb|Hb]];
+          split; intros [A B]; repeat split; auto; try tauto; try lra;
+          try (intros _; split; [apply E1 | apply E2]; lra);
+          try (destruct B as [B1 B2]; specialize (B1 eq_refl); destruct B1 as [B11 B12]; apply E1 in B11; apply E2 in B12; lra);
+          try (destruct B as [B1 B2]; exact B2).
+  Qed.
+End BinDistance.
